@@ -1404,7 +1404,9 @@ impl ContinuityStreamCache {
         continuity_id: &str,
     ) -> io::Result<Option<PathBuf>> {
         let mr_path = self.messages_runs_path_for_v1(continuity_id);
-        if mr_path.exists() {
+        // An emptied member is as good as a missing one: only a thread without a single message
+        // or run frame has an empty messages+runs sidecar, and rebuilding that one is free.
+        if is_non_empty_file(&mr_path) {
             return Ok(Some(mr_path));
         }
 
